@@ -49,6 +49,11 @@ type c14Wire struct {
 	// payload bytes of the first header block (HEADERS + CONTINUATION*)
 	firstBlock int
 	blockState int // 0 before, 1 inside, 2 after the first header block
+	// error codes of the first RST_STREAM and the first GOAWAY (-1: none seen)
+	rstCode, goAwayCode int64
+	capType             byte
+	capWant             int
+	capBuf              []byte
 }
 
 func (s *c14Wire) feed(p []byte) {
@@ -61,6 +66,20 @@ func (s *c14Wire) feed(p []byte) {
 		}
 		if s.payload > 0 {
 			n := min(s.payload, len(p))
+			if s.capWant > 0 {
+				k := min(s.capWant, n)
+				s.capBuf = append(s.capBuf, p[:k]...)
+				s.capWant -= k
+				if s.capWant == 0 {
+					code := int64(s.capBuf[len(s.capBuf)-4])<<24 | int64(s.capBuf[len(s.capBuf)-3])<<16 | int64(s.capBuf[len(s.capBuf)-2])<<8 | int64(s.capBuf[len(s.capBuf)-1])
+					if FrameType(s.capType) == FrameRSTStream && s.rstCode < 0 {
+						s.rstCode = code
+					}
+					if FrameType(s.capType) == FrameGoAway && s.goAwayCode < 0 {
+						s.goAwayCode = code
+					}
+				}
+			}
 			s.payload -= n
 			p = p[n:]
 			continue
@@ -78,6 +97,13 @@ func (s *c14Wire) feed(p []byte) {
 			}
 			if FrameType(t) == FrameData && l > s.maxData {
 				s.maxData = l
+			}
+			s.capWant, s.capBuf = 0, s.capBuf[:0]
+			if FrameType(t) == FrameRSTStream && l == 4 {
+				s.capType, s.capWant = t, 4
+			}
+			if FrameType(t) == FrameGoAway && l >= 8 {
+				s.capType, s.capWant = t, 8
 			}
 			switch {
 			case s.blockState == 0 && FrameType(t) == FrameHeaders:
@@ -117,6 +143,7 @@ type c14Half struct {
 
 func c14NewHalf(preface bool) *c14Half {
 	h := &c14Half{}
+	h.wire.rstCode, h.wire.goAwayCode = -1, -1
 	h.cond = sync.NewCond(&h.mu)
 	if preface {
 		h.wire.skip = len(ClientPreface)
@@ -457,34 +484,65 @@ func c14Run(w *vx.W, x c14Case) (st c14Stats, completed bool) {
 	return
 }
 
-// c14Situation names abstract situations in which every failure of the
-// exchange has one root cause, so that it is reported under one signature
-// whatever clause trips first (which depends on timing).
+// c14Situation names the two abstract situations of the known findings: the
+// Transport sent its request before it could have received the server's
+// SETTINGS, and the server enforces a value from those SETTINGS that is
+// stricter than the protocol default. (Also used to keep the deprecated
+// scheduler out of these situations, see c14Invalid.)
 func c14Situation(x *c14Case) string {
-	if x.Early && x.SWin < 65535 && x.ReqBody > int(x.SWin) {
-		// the client may send up to 65535 bytes per stream until it has
-		// received the server's smaller SETTINGS_INITIAL_WINDOW_SIZE
-		return "request-data-sent-before-server-settings-exceeds-advertised-smaller-window"
+	if c14SitWindow(x) {
+		return c14SigWindow
 	}
-	if x.Early && x.STbl < min(x.CTbl, 4096) {
-		// until the client has received SETTINGS_HEADER_TABLE_SIZE its encoder
-		// may use (and announce) a dynamic table of up to 4096 bytes
-		return "request-header-block-sent-before-server-settings-vs-smaller-server-header-table"
+	if c14SitTable(x) {
+		return c14SigTable
 	}
 	return ""
 }
 
+const (
+	c14SigWindow = "C14/exchange-fails/request-data-sent-before-server-settings-exceeds-advertised-smaller-window"
+	c14SigTable  = "C14/exchange-fails/request-header-block-sent-before-server-settings-vs-smaller-server-header-table"
+)
+
+// the client may send up to 65535 bytes per stream until it has received the
+// server's smaller SETTINGS_INITIAL_WINDOW_SIZE
+func c14SitWindow(x *c14Case) bool {
+	return x.Early && x.SWin < 65535 && x.ReqBody > int(x.SWin)
+}
+
+// until the client has received SETTINGS_HEADER_TABLE_SIZE its encoder may
+// use (and announce) a dynamic table of up to 4096 bytes
+func c14SitTable(x *c14Case) bool { return x.Early && x.STbl < min(x.CTbl, 4096) }
+
+// c14Failer reports failures. A failure is filed under the signature of a
+// known-finding situation only if the case is in that situation AND the wire
+// shows the root-cause symptom itself (the server answered with RST_STREAM
+// FLOW_CONTROL_ERROR resp. GOAWAY COMPRESSION_ERROR); which oracle clause
+// trips first then depends on timing only. Every other failure keeps its own
+// signature, so nothing else hides behind the two.
 type c14Failer struct {
-	w *vx.W
-	x *c14Case
+	w   *vx.W
+	x   *c14Case
+	s2c *c14Half
 }
 
 func (f c14Failer) Failf(sig, format string, a ...any) {
-	if sit := c14Situation(f.x); sit != "" {
-		f.w.Failf("C14/exchange-fails/"+sit, "["+sig+"] "+format, a...)
-		return
+	f.s2c.mu.Lock()
+	rst, goAway := f.s2c.wire.rstCode, f.s2c.wire.goAwayCode
+	f.s2c.mu.Unlock()
+	flow, comp := rst == int64(ErrCodeFlowControl), goAway == int64(ErrCodeCompression)
+	switch {
+	case c14SitWindow(f.x) && c14SitTable(f.x) && (flow || comp):
+		// in both situations at once: which of the two server reactions gets
+		// onto the wire first depends on timing; filed under one fixed signature
+		f.w.Failf(c14SigTable, "["+sig+"] "+format, a...)
+	case c14SitWindow(f.x) && rst == int64(ErrCodeFlowControl):
+		f.w.Failf(c14SigWindow, "["+sig+"] "+format, a...)
+	case c14SitTable(f.x) && goAway == int64(ErrCodeCompression):
+		f.w.Failf(c14SigTable, "["+sig+"] "+format, a...)
+	default:
+		f.w.Failf(sig, format, a...)
 	}
-	f.w.Failf(sig, format, a...)
 }
 
 type c14Info struct {
@@ -507,8 +565,8 @@ type c14CliResult struct {
 const c14Link = "</style.css>; rel=preload; as=style"
 
 func c14Exchange(vw *vx.W, x *c14Case) (st c14Stats, completed bool) {
-	w := c14Failer{vw, x}
 	c2s, s2c := c14NewHalf(true), c14NewHalf(false)
+	w := c14Failer{vw, x, s2c}
 	for _, s := range x.Short {
 		h := c2s
 		if s.Dir == "s2c" {
